@@ -3,8 +3,14 @@
 import json
 ALL=['C%02d'%i for i in range(1,21)]
 claimed={
- 'C04':dict(text="Proof: every obligation generated from the current source of the marks functions (IsMarked, HasMark, Marks, Unmark, Mark, WithMarks, WithSameMarks, HasSameMarks, ValueMarks.Equal) against their contracts is discharged for all inputs and all loop iterations: results keep payload and type, carry exactly the union of the input marks, at most one marker layer.",
-   note="Trusted: go/ssa lowering, the SMT solvers, prelude axioms on finite sets, maps of at most 2^40 entries; operation methods' mark prologues and stdlib functions are not yet under contract.",
+ 'C01':dict(text="Proof for the clauses under contract so far: the type-check helpers (typeCheck, mustTypeCheck, forceShortCircuitType) return the dynamic or typed unknown short-circuit exactly when an operand is dynamically typed / unknown; Not, And, Or, GetAttr, Index, HasIndex return a value of the documented result type for every well-formed operand, an unknown result exactly in the documented unknown/dynamic cases, And/Or answer the absorbing element when one operand is known False/True, and their panic conditions are exact (so replacing an operand by an unknown never makes them panic).",
+   note="Not under contract yet: arithmetic, comparison, equality, length, membership and the range-based shortcuts (so the refinement-soundness clauses of the property are not claimed); the relational 'result admits the original result' formulation is not built. RefineNotNull has an assumed contract.",
+   tech="contract-based deductive verification (SSA -> VCs -> z3/cvc5), exact panic conditions", ref="§4 C01"),
+ 'C02':dict(text="Proof: on well-formed operands GetAttr, Index, HasIndex return exactly the constructed member / the documented boolean (integral non-negative index below the length, key present in the map, attribute of the object type) with the element or attribute type, Not/And/Or compute their truth tables, each with an exact panic condition (wrong operand types, nulls, out-of-range or non-integral indices are rejected), and for lists and tuples Index returns only where HasIndex is True. For maps that clause fails (listed finding: a missing key yields a null).",
+   note="Not under contract yet: arithmetic, comparisons, equality, Length, HasElement, LengthInt; math/big is trusted through observation functions (bf.int64, bf.acc64).",
+   tech="contract-based deductive verification (SSA -> VCs -> z3/cvc5), exact panic conditions", ref="§4 C02"),
+ 'C04':dict(text="Proof: every obligation generated from the current source of the marks functions (IsMarked, HasMark, Marks, Unmark, Mark, WithMarks, WithSameMarks, HasSameMarks, ValueMarks.Equal) and of the mark prologues of GetAttr, Index, HasIndex, Not, And, Or against their contracts is discharged for all inputs and all loop iterations: results keep payload and type, carry exactly the union of the input marks, at most one marker layer.",
+   note="Trusted: go/ssa lowering, the SMT solvers, prelude axioms on finite sets, maps of at most 2^40 entries; mark prologues are under contract for GetAttr, Index, HasIndex, Not, And, Or (every operand mark is on the result); other operation methods, conversions, function calls (Call's marks-kept clause does not discharge) and stdlib functions are not.",
    tech="contract-based deductive verification (SSA -> VCs -> z3/cvc5)", ref="§4 C04"),
  'C06':dict(text="Proof (shape level): the constructors under contract (NumberIntVal/UIntVal/FloatVal, ParseNumberVal, StringVal, ListVal, ListValEmpty, MapVal, MapValEmpty, TupleVal, ObjectVal, Object, ObjectWithOptionalAttrs, CanListVal, CanMapVal) return unmarked, known, non-null values whose type has the documented kind, element type (the dynamic placeholder only when every member is dynamically typed), tuple length and attribute set (NFC-normalized names), with a well-formed type; the marks functions keep a single marker layer with a non-empty mark set.",
    note="Not covered: deep well-formedness of payloads (recursive wf over members), set values (SetVal/SetValEmpty have assumed contracts), conversions, decoders other than msgpack, gocty, stdlib outputs; NFC normalization is an uninterpreted idempotent function.",
